@@ -379,6 +379,10 @@ pub fn main(args: &[String]) {
                     let rhs = if j == l { base.to_string() } else { format!("a{}", j + 1) };
                     defs.push(if r.gen_bool(0.5) { format!("a{j} = {rhs}") } else { format!("a{j} : type = {rhs}") });
                 }
+                // decoys: other type-valued members that a mis-shifted copy of the group could point at
+                for j in 0..r.gen_range(0..3) {
+                    defs.push(format!("z{j} = {}", ["bool", "int", "int -> bool", "type"][r.gen_range(0..4)]));
+                }
                 defs.shuffle(&mut r);
                 let group = defs.join("; ");
                 let text = match (base, r.gen_range(0..7)) {
